@@ -306,12 +306,30 @@ def keyword_root_cause(err, wit_text, keywords, loc_re=r"^(\S+?):(\d+):(\d+): (?
     return None
 
 
-def signature(job, prefix, specific):
+def signature(job, prefix, specific, closed=None):
     """Violation signature.  Corpus and hand-written worlds pass on the pinned
     tree, so their signatures are precise; failures on random adversarial worlds
     carry a `random:` marker so that a listed finding about random worlds can
-    never mask a regression on the corpus."""
-    return prefix + ("random:" if job.get("source") == "random" else "") + specific
+    never mask a regression on the corpus.
+
+    `closed`: for *compile-stage* failures on random worlds the pinned tree
+    already fails in an open-ended number of ways (the message of the first
+    compiler error is not a stable key), so the signature space is closed:
+    the named root causes in `closed`, `unescaped-keyword:uppercase-wit-id`,
+    `unescaped-keyword:lowercase`, else `unclassified`.  The full diagnostic
+    stays in the violation text and the replay file."""
+    if job.get("source") != "random":
+        return prefix + specific
+    if closed is not None:
+        if specific == "unescaped-keyword:uppercase-wit-id" or specific in closed:
+            pass
+        elif specific.startswith("unescaped-keyword:"):
+            specific = "unescaped-keyword:lowercase"
+        elif specific.startswith("maybe-generator-temporary-collision"):
+            specific = "maybe-generator-temporary-collision"
+        else:
+            specific = "unclassified"
+    return prefix + "random:" + specific
 
 
 def bucket(msg, buckets):
